@@ -90,6 +90,13 @@ def scan_fn(ctx):
     else:
         node = _copy.deepcopy(f.node)
     node = _normalise_tail(node)
+    # `a, b = x, y` in an arm is two assignments (no target is read by a value): the successor arithmetic is read per variable
+    from engine.inliner import simplify
+    from engine.normalize import simplify_lists, renumber
+    node = _copy.deepcopy(node)
+    simplify_lists(node, simplify)
+    ast.fix_missing_locations(node)
+    renumber(node)
     g = _copy.copy(f)
     g.node = node
     return g
